@@ -1,2 +1,3 @@
 pub mod chunked;
 pub mod http;
+pub mod sse;
